@@ -61,6 +61,8 @@ def main(argv=None):
     except Exception as ex:
         print(f'INCONCLUSIVE property={pid}: MIR generation failed: {ex}'); write_evidence(pid, a.tier, seed, mod, [], [], time.time() - t0, error=str(ex)); return 2
     _IX = ix
+    import gc
+    gc.collect(); gc.freeze()          # the index is shared copy-on-write with the worker processes: keep the collector from touching it
     t_ix = time.time() - t0
     jobs = mod.jobs(a.tier)
     if a.only: jobs = [j for j in jobs if a.only in j['name']]
